@@ -1,4 +1,4 @@
-(* Proofs about Model H (Hs/Builder.v) and its composition with Model B. *)
+(* Proofs about Model J (Hs/Builder.v) and its composition with Model B. *)
 From Coq Require Import List Bool Arith String Lia.
 Import ListNotations.
 From Lime Require Import Hs.Types Hs.Server Hs.Monitor Hs.ServerFacts Hs.MonitorFacts Hs.Builder.
